@@ -1535,3 +1535,47 @@ def r14_5(rep):
                 rep.bad("is_available:unreadable-exit", "exit value `%s` is neither the nightly exit nor a row of the edition table"
                         % av.canon(leaf, 4)[:120], where)
     rep.need(table >= 3, "edition table rows in is_available (2018, 2021, 2024)")
+
+
+@RULES.rule("R14.6", "a `-nightly` target is the release before it in every spelling: no successful exit of FromStr skips the adjustment", floor=2)
+def r14_6(rep):
+    """`1.82.0-nightly` may lack what 1.82.0 stabilised, so `FromStr for RustTarget` maps it to `1.81.<max>`.  That has to hold for the
+    short spelling too: an early `return Self::stable(minor, 0)` for `1.NN` (no patch component) placed before the adjustment makes
+    `--rust-target 1.82-nightly` emit `unsafe extern`, `1.77-nightly` emit `offset_of!` / `c\"..\"` literals, and accepts
+    `1.85-nightly` with edition 2024."""
+    prog = rep.prog
+    b = rep.need(prog.impl_fn("std::str::FromStr", RT, "from_str"), "impl FromStr for RustTarget")
+    # the adjustment: `if <pre-release> == "nightly" { .. minor = .. - 1 .. }`
+    adj = []
+    for n in b.nodes:
+        if n["k"] != "If":
+            continue
+        c = strip(n["cond"])
+        if c.get("k") == "Binary" and c["op"] == "==" and any(strip(x).get("k") == "Lit" and strip(x).get("v") == "nightly" for x in (c["l"], c["r"])):
+            other = strip(c["r"]) if strip(c["l"]).get("k") == "Lit" else strip(c["l"])
+            whole = param_index(b, other) == 0
+            dec = any(x["k"] == "MCall" and x.get("name") in ("checked_sub", "saturating_sub", "wrapping_sub") or
+                      (x["k"] in ("Binary", "AssignOp") and x.get("op") in ("-", "-=")) for x in b.walk(n["then"]))
+            if not whole and dec:
+                adj.append(n)
+    rep.check(len(adj) == 1, "nightly-adjustment-present", "one `if pre_release == \"nightly\" { minor -= 1; patch = MAX }` block (found %d)" % len(adj), b.loc(b.root))
+    if len(adj) != 1:
+        return
+    a = adj[0]
+    n_exits = 0
+    for r in b.nodes:
+        if r["k"] != "Ret" or "e" not in r or any(x["k"] == "Closure" for x in b.ancestors(r)):
+            continue
+        v = strip(r["e"])
+        if v.get("k") == "Call" and str(v.get("ctor") or v.get("callee") or "").endswith("::Err"):
+            continue
+        n_exits += 1
+        whole_nightly = any(kind == "cond" and pol and param_index(b, strip(strip(g).get("l", {}))) == 0 and strip(strip(g).get("r", {})).get("v") == "nightly"
+                            for pol, kind, g in b.guards(r) if strip(g).get("k") == "Binary")
+        inside = any(x is a for x in b.ancestors(r))
+        ok = whole_nightly or r["_i"] > a["_i"] or inside
+        rep.check(ok, "success-exit-after-adjustment:%d" % n_exits,
+                  "the plain `nightly` exit" if whole_nightly else "after the adjustment" if ok else
+                  "`return %s` can succeed before the `-nightly` adjustment has run: that spelling of a nightly target is taken for the stable release"
+                  % b.canon(v, 3)[:60], b.loc(r))
+    rep.check(True, "tail-after-adjustment", "the final result is computed after the adjustment")
